@@ -960,4 +960,115 @@ theorem emitIdent_bt (name : Str) : emitIdent (escapeKeyBt name) = qQuote name :
   simp only [hl]
   rw [if_pos ⟨h2, trivial, trivial⟩, List.dropLast_concat, unBt_dblBt]
 
+/-! ## a whole statement with any number of user-text positions -/
+
+theorem wsFree_cont (t r : Str) (nl : Bool) (h : wsFree nl t = true) : wsCont nl (t ++ r) = false := by
+  induction t generalizing nl with
+  | nil => simp [wsFree] at h
+  | cons c cs ih =>
+    by_cases hq : c = '\''
+    · subst hq
+      have : nl = false := by simpa [wsFree] using h
+      subst this; simp [wsCont]
+    · by_cases h0 : c = NUL
+      · subst h0; simp [wsCont, hq]
+      · by_cases hs : isSpace c = true
+        · have h' : wsFree (nl || isNl c) cs = true := by simpa [wsFree, hq, h0, hs] using h
+          simp only [List.cons_append, wsCont, hq, h0, hs, if_false, if_true]
+          exact ih _ h'
+        · simp [wsCont, hq, h0, hs]
+
+theorem contFree_cont (t r : Str) (h : contFree t = true) : contQuote (t ++ r) = false := by
+  cases t with
+  | nil => simp [contFree] at h
+  | cons c cs =>
+    by_cases hq : c = '\''
+    · subst hq; simp [contFree] at h
+    · by_cases h0 : c = NUL
+      · subst h0; simp [contQuote, hq]
+      · by_cases hs : isSpace c = true
+        · have h' : wsFree (isNl c) cs = true := by simpa [contFree, hq, h0, hs] using h
+          simp only [List.cons_append, contQuote, hq, h0, hs, if_false, if_true]
+          exact wsFree_cont cs r _ h'
+        · simp [contQuote, hq, h0, hs]
+
+theorem nulFree_iff (s : Str) (h : nulFree s = true) : NUL ∉ s := by
+  intro hm
+  simp [nulFree, List.contains_iff_mem, hm] at h
+
+theorem renderSegs_cons (x : Seg) (xs : List Seg) : renderSegs (x :: xs) = x.render ++ renderSegs xs := by
+  simp [renderSegs]
+
+theorem toksOfSegs_cons (x : Seg) (xs : List Seg) : toksOfSegs (x :: xs) = x.toks ++ toksOfSegs xs := by
+  simp [toksOfSegs]
+
+/-- the tokens of a well-formed statement are the tokens of the formatter's own text with exactly one token per
+user-text position, whatever the user values are and however many positions there are -/
+theorem lex_renderSegs (segs : List Seg) (h : wfSegs segs = true) : lex (renderSegs segs) = toksOfSegs segs := by
+  induction segs with
+  | nil => rfl
+  | cons x xs ih =>
+    rw [renderSegs_cons, toksOfSegs_cons]
+    cases x with
+    | text t =>
+      simp only [wfSegs, Bool.and_eq_true, beq_iff_eq] at h
+      simp only [Seg.render, Seg.toks]
+      unfold lex
+      rw [go_append, h.1]
+      exact congrArg _ (ih h.2)
+    | lit v =>
+      cases xs with
+      | nil => simp [wfSegs] at h
+      | cons y ys =>
+        cases y with
+        | text t =>
+          simp only [wfSegs, Bool.and_eq_true] at h
+          have hcont : contQuote (renderSegs (Seg.text t :: ys)) = false := by
+            rw [renderSegs_cons]; exact contFree_cont t _ h.1.2
+          simp only [Seg.render, Seg.toks]
+          have h2 : wfSegs (Seg.text t :: ys) = true := by simp only [wfSegs, Bool.and_eq_true]; exact h.2
+          rw [lex_pgQuote v _ (nulFree_iff v h.1.1) hcont, ih h2]; rfl
+        | _ => simp [wfSegs] at h
+    | bare n =>
+      cases xs with
+      | nil => simp [wfSegs] at h
+      | cons y ys =>
+        cases y with
+        | text t =>
+          simp only [wfSegs, Bool.and_eq_true] at h
+          have hfol : identFollow (renderSegs (Seg.text t :: ys)) = true := by
+            rw [renderSegs_cons]
+            cases t with
+            | nil => simp at h
+            | cons c cs => simpa [Seg.render, identFollow] using h.1.2
+          simp only [Seg.render, Seg.toks]
+          have := bare_in_context [] n _ rfl h.1.1 hfol
+          rw [emitIdent_bare n h.1.1]
+          simp only [List.nil_append] at this
+          have h2 : wfSegs (Seg.text t :: ys) = true := by simp only [wfSegs, Bool.and_eq_true]; exact h.2
+          rw [this, ih h2]; rfl
+        | _ => simp [wfSegs] at h
+    | bt n =>
+      cases xs with
+      | nil => simp [wfSegs] at h
+      | cons y ys =>
+        cases y with
+        | text t =>
+          simp only [wfSegs, Bool.and_eq_true] at h
+          have hfol : contDQ (renderSegs (Seg.text t :: ys)) = false := by
+            rw [renderSegs_cons]
+            cases t with
+            | nil => simp at h
+            | cons c cs =>
+              have hc : c ≠ '"' := by simpa using h.1.2
+              simp only [Seg.render, List.cons_append]
+              unfold contDQ
+              split
+              · rename_i heq; cases heq; exact absurd rfl hc
+              · rfl
+          simp only [Seg.render, Seg.toks]
+          have h2 : wfSegs (Seg.text t :: ys) = true := by simp only [wfSegs, Bool.and_eq_true]; exact h.2
+          rw [emitIdent_bt, lex_qQuote n _ (nulFree_iff n h.1.1) hfol, ih h2]; rfl
+        | _ => simp [wfSegs] at h
+
 end Dawgs.C04
